@@ -745,10 +745,8 @@ func propC16Comb(c c16CombCase) (ev.Outcome, error) {
 		close(start)
 		fin := make(chan struct{})
 		go func() { done.Wait(); close(fin) }()
-		select {
-		case <-fin:
-		case <-time.After(20 * time.Second):
-			return o, fmt.Errorf("combined client (trial %d): the concurrent lookups did not all return within 20 s", trial)
+		if _, ok := ev.Await(fin, 20*time.Second, ev.HangLimit); !ok {
+			return o, fmt.Errorf("combined client (trial %d): the concurrent lookups did not all return within %v", trial, ev.HangLimit)
 		}
 		if combTransport.errs.Load() != transportErrs {
 			// a request got no HTTP answer (connection trouble on a busy machine): the trial
